@@ -159,6 +159,12 @@ def parseLine (line : String) : Option Line :=
   | ["alter", alts] => do
     let alts ← (alts.splitOn ";").mapM parseAlt
     some (.op (.alter alts))
+  | ["merge", c, cs, rows] => do
+    if !nameOk c then none
+    let cs ← parseColDefs cs
+    let rows ← parseRows rows
+    if !rowsSmall rows then none
+    some (.op (.merge c cs rows))
   | ["drop", cs] =>
     let cs := cs.splitOn ","
     if cs.all nameOk then some (.op (.drop cs)) else none
